@@ -27,15 +27,58 @@ def check(ctx):
     dt = torch.float64
     calls = 0
 
-    def monitored(name, fn, *args, watch=(), case=None, **kw):
+    # model side: which modelled computations are accepted by the frame analysis, and which results may alias pre-existing storages
+    try:
+        heap_pred = {r["name"]: r for r in ctx.driver([{"op": "heap"}])[0]["ok"]}
+    except (DriverBroken, KeyError) as e:
+        ctx.ties_broken.append({"kind": "driver", "detail": str(e)[:1500]})
+        heap_pred = {}
+    for nm, r in heap_pred.items():
+        if not r["safe"]:
+            ctx.ties_broken.append({"kind": "correspondence", "op": "heap", "case": nm, "impl": "no mutation observed so far", "model": "program rejected by the frame analysis"})
+    alias_seen = set()
+
+    def monitored(name, fn, *args, watch=(), case=None, prog=None, **kw):
+        """call the implementation under the bitwise mutation monitor; with `prog` = name of the Lean heap program modelling the
+        call, also compare the OBSERVED aliasing of the result (does it share storage with a buffer / caller tensor that existed
+        before the call?) with the model: aliasing where the model proves the result fresh is a broken correspondence"""
         nonlocal calls
         calls += 1
+        pre = set()
+        if prog is not None:
+            for _, ref, _, _, _ in snapshot_tensors([(f"arg{i}", a) for i, a in enumerate(args)] + list(kw.items()) + list(watch)):
+                if ref.numel() > 0:
+                    pre.add(ref.untyped_storage().data_ptr())
         st, v, mut = call_impl(fn, *args, watch=list(watch), **kw)
         ctx.stats[f"call={name}"] += 1
         if mut:
             ctx.fail(f"{name} modified market data or a caller tensor in place", (case or {}) | {"call": name, "mutated": mut},
                      key=f"mutation:{name}", detail=mut)
+        if prog is not None and st == "ok" and isinstance(v, torch.Tensor) and v.numel() > 0 and prog in heap_pred:
+            al = v.untyped_storage().data_ptr() in pre
+            ctx.stats[f"alias[{prog}]={'view' if al else 'fresh'}"] += 1
+            if al and heap_pred[prog]["result_fresh"] and (name, prog) not in alias_seen:
+                alias_seen.add((name, prog))
+                ctx.disagree("heap", (case or {}) | {"call": name, "program": prog}, "result shares storage with market data / a caller tensor",
+                             "result is a storage allocated by the call (theorem resultFresh_sound)")
         return st, v
+
+    def feat_prog(name, step):
+        if step is not None:
+            return "spot_at"
+        if name in ("underlier_spot", "spot", "variance", "volatility"):
+            return "feature_view"
+        if name in ("underlier_log_spot", "log_spot"):
+            return "log_spot"
+        if name.startswith("barrier"):
+            return "barrier"
+        return "moneyness"
+
+    class InplaceFirst(torch.nn.Module):
+        """a user model that overwrites its input in place before using it (legal: the input is the hedger's own concatenation)"""
+        def forward(self, x):
+            x.mul_(0.5)
+            return x[..., :1].clone()
 
     n = 120 if ctx.tier == "quick" else 2000
     for it in range(n):
@@ -53,12 +96,18 @@ def check(ctx):
         with torch.no_grad():
             for name in BASE_FEATURES:
                 f = get_feature(feature_obj(torch, name, mk, thr)).of(d, None)
-                monitored(f"feature.{name}.get(None)", f.get, None, watch=watch, case=case)
-                monitored(f"feature.{name}.get(i)", f.get, g.randint(0, T - 1), watch=watch, case=case)
+                monitored(f"feature.{name}.get(None)", f.get, None, watch=watch, case=case, prog=feat_prog(name, None))
+                monitored(f"feature.{name}.get(i)", f.get, g.randint(0, T - 1), watch=watch, case=case, prog=feat_prog(name, 0))
+                # the hedger with this single input and a model that returns / overwrites its input: compute_hedge then writes
+                # the last time step in place into whatever the model returned
+                for mname, mod, prog in (("Identity", torch.nn.Identity(), "hedge_batched_identity"), ("InplaceFirst", InplaceFirst(), "hedge_batched_inplace_model")):
+                    h1 = Hedger(mod, [feature_obj(torch, name, mk, thr)])
+                    monitored(f"Hedger({mname},[{name}]).get_input", h1.get_input, d, None, watch=watch, case=case, prog="get_input")
+                    monitored(f"Hedger({mname},[{name}]).compute_hedge", h1.compute_hedge, d, watch=watch, case=case, prog=prog)
             mo = nn_module_output(torch, mk, thr, g)
             f = mo.of(d, None)
-            monitored("feature.module_output.get(None)", f.get, None, watch=watch, case=case)
-            monitored("derivative.payoff", d.payoff, watch=watch, case=case)
+            monitored("feature.module_output.get(None)", f.get, None, watch=watch, case=case, prog="moneyness")
+            monitored("derivative.payoff", d.payoff, watch=watch, case=case, prog="payoff")
             monitored("derivative.spot(listed)", lambda: d.spot, watch=watch, case=case)
             monitored("derivative.moneyness", d.moneyness, None, watch=watch, case=case)
             monitored("derivative.max_log_moneyness", d.max_log_moneyness, None, watch=watch, case=case)
@@ -68,8 +117,8 @@ def check(ctx):
             hedger = Hedger(model_obj(torch, ms), feats)
             hedger2 = Hedger(model_obj(torch, gen_linear(g, len(names) + 1, 1)), feats + ["prev_hedge"])
             for hname, hh in (("batched", hedger), ("stepwise", hedger2)):
-                monitored(f"Hedger.compute_hedge[{hname}]", hh.compute_hedge, d, watch=watch, case=case)
-                monitored(f"Hedger.compute_pl[{hname}]", hh.compute_pl, d, watch=watch, case=case)
+                monitored(f"Hedger.compute_hedge[{hname}]", hh.compute_hedge, d, watch=watch, case=case, prog="hedge_batched" if hname == "batched" else "hedge_step")
+                monitored(f"Hedger.compute_pl[{hname}]", hh.compute_pl, d, watch=watch, case=case, prog="pl")
                 monitored(f"Hedger.compute_portfolio[{hname}]", hh.compute_portfolio, d, watch=watch, case=case)
                 monitored(f"Hedger.get_input[{hname}]", hh.get_input, d, 0, watch=watch, case=case)
             if mk["option"] in ("EuropeanOption",) or True:
@@ -88,16 +137,16 @@ def check(ctx):
             tg = torch.ones_like(x) * 0.5
             for cname, crit in (("EntropicRiskMeasure", nn.EntropicRiskMeasure()), ("ExpectedShortfall", nn.ExpectedShortfall(0.5)),
                                 ("QuadraticCVaR", nn.QuadraticCVaR(2.0)), ("EntropicLoss", nn.EntropicLoss()), ("IsoelasticLoss", nn.IsoelasticLoss(0.5))):
-                monitored(f"{cname}.forward", crit, x, tg, case=case)
+                monitored(f"{cname}.forward", crit, x, tg, case=case, prog="loss")
                 monitored(f"{cname}.cash", crit.cash, x, tg, case=case)
             sp = torch.tensor([[[float(v) for v in r]] for r in mk["spot"]], dtype=dt)
             un = torch.ones_like(sp) * 0.5
             pay = torch.ones(N, dtype=dt)
-            monitored("functional.pl", fnl.pl, sp, un, cost=[0.01], payoff=pay, case=case)
+            monitored("functional.pl", fnl.pl, sp, un, cost=[0.01], payoff=pay, case=case, prog="pl")
             lo_b, hi_b = torch.zeros(N, T, dtype=dt), torch.ones(N, T, dtype=dt) * 2
             xs = torch.tensor([[float(v) for v in r] for r in mk["spot"]], dtype=dt)
-            monitored("functional.leaky_clamp", fnl.leaky_clamp, xs, lo_b, hi_b, case=case)
-            monitored("functional.clamp", fnl.clamp, xs, lo_b, hi_b, case=case)
+            monitored("functional.leaky_clamp", fnl.leaky_clamp, xs, lo_b, hi_b, case=case, prog="clamp")
+            monitored("functional.clamp", fnl.clamp, xs, lo_b, hi_b, case=case, prog="clamp")
             monitored("functional.clamp[max]", fnl.clamp, xs, lo_b, hi_b, inverted_output="max", case=case)
             monitored("functional.european_payoff", fnl.european_payoff, xs, case=case)
             monitored("functional.lookback_payoff", fnl.lookback_payoff, xs, case=case)
